@@ -106,57 +106,119 @@ def gen_refs(cfg):
 
 
 def translator_problems(cfg, out):
+    """(section, message) for every generated section that could not be regenerated from the source
+    and that this property relies on (`tables` in props.py; otherwise every section mentioned in the
+    import closure of its audit modules)"""
     try:
         st = json.load(open(os.path.join(CACHE, "translate_status.json")))
     except Exception:
-        return [out.strip().splitlines()[-1] if out.strip() else "translator failed"]
+        return [("*", out.strip().splitlines()[-1] if out.strip() else "translator failed")]
     failed = st.get("failed", {})
     if "*" in failed:
-        return [failed["*"]]
+        return [("*", failed["*"])]
     refs = gen_refs(cfg)
     secs = {st["defs"].get(r) for r in refs} - {None}
+    if "tables" in cfg:
+        secs &= set(cfg["tables"]) | {"ffi"}
     unknown = [r for r in refs if r not in st["defs"] and r not in ("Tables", "FfiTables", "Ffi")]
-    msgs = [f"section {sec}: {failed[sec]}" for sec in sorted(secs) if sec in failed]
+    msgs = [(sec, failed[sec]) for sec in sorted(secs) if sec in failed]
     if unknown and failed:
         # a referenced definition that no section produced: it belonged to a section that failed
         # without a previous text to fall back on
-        msgs.append(f"generated definitions missing: {sorted(unknown)[:5]} (failed sections: {sorted(failed)})")
+        msgs.append(("*", f"generated definitions missing: {sorted(unknown)[:5]} (failed sections: {sorted(failed)})"))
     return msgs
 
 
+def disputed_sections(out):
+    """sections of the generated tables that a failing `lake build` disputes: every error must lie
+    inside a theorem that mentions generated definitions (a table theorem); the result is the set of
+    sections those definitions belong to, or None if some error is not of that kind"""
+    try:
+        st = json.load(open(os.path.join(CACHE, "translate_status.json")))
+    except Exception:
+        return None
+    secs = set()
+    errs = re.findall(r"error: (RodbusModel/[\w/]+\.lean):(\d+):\d+:", out)
+    if not errs:
+        return None
+    for rel, line in errs:
+        path = os.path.join(LEAN, rel)
+        if not os.path.exists(path):
+            return None
+        lines = open(path).read().split("\n")
+        k = int(line) - 1
+        a = k
+        while a >= 0 and not re.match(r"(theorem|lemma|example|def|instance)\b", lines[a]):
+            a -= 1
+        b = k + 1
+        while b < len(lines) and not re.match(r"(theorem|lemma|example|def|instance|/--|end |namespace )", lines[b]):
+            b += 1
+        if a < 0 or not lines[a].startswith(("theorem", "lemma", "example")):
+            return None
+        refs = re.findall(r"Gen\.((?:Ffi\.)?\w+)", "\n".join(lines[a:b]))
+        here = {st["defs"].get(r) for r in refs} - {None}
+        if not here:
+            return None      # an error outside the table theorems: a genuine proof failure
+        secs |= here
+    return secs
+
+
+def build_audit(cfg):
+    """(theorems with their axioms, problems, raw output of failed builds)"""
+    problems, theorems, failed_out = [], {}, ""
+    for mod in cfg["audit_modules"]:
+        rc, out = run(["lake", "build", mod], cwd=LEAN)
+        for m in re.finditer(r"'([^']+)' depends on axioms: \[([^\]]*)\]", out):
+            theorems[m.group(1)] = {a.strip() for a in m.group(2).split(",") if a.strip()}
+        for m in re.finditer(r"'([^']+)' does not depend on any axioms", out):
+            theorems[m.group(1)] = set()
+        if rc != 0:
+            errs = [l.strip() for l in out.splitlines() if re.search(r"\berror\b", l)]
+            problems.append(f"lake build {mod} failed: " + (errs[0] if errs else out.strip()[-300:]))
+            failed_out += out
+        # a replayed (cached) build does not re-print infos of dependencies: ask again
+        if rc == 0 and not theorems:
+            src = os.path.join(LEAN, mod.replace(".", "/") + ".lean")
+            rc2, out2 = run(["lake", "env", "lean", src], cwd=LEAN)
+            for m in re.finditer(r"'([^']+)' depends on axioms: \[([^\]]*)\]", out2):
+                theorems[m.group(1)] = {a.strip() for a in m.group(2).split(",") if a.strip()}
+            for m in re.finditer(r"'([^']+)' does not depend on any axioms", out2):
+                theorems[m.group(1)] = set()
+    return theorems, problems, failed_out
+
+
 def proof_obligations(pid, cfg, tier):
-    """returns dict(obligations, discharged, theorems, problems[])"""
+    """returns dict(obligations, discharged, theorems, problems[], translator[(section, msg)])"""
     problems = []
+    translator = []
     with Lock("build.lock"):
         rc, out = run([sys.executable, os.path.join(HERE, "translate.py")])
         if rc != 0:
             # a section of the generated tables could not be regenerated: that breaks the tie for the
             # properties whose theorems mention a definition of that section, and only for those
-            for msg in translator_problems(cfg, out):
-                problems.append("translator: " + msg)
+            translator = translator_problems(cfg, out)
+        theorems, aproblems, failed_out = build_audit(cfg)
+        if aproblems:
+            # Does the failure consist of table theorems only (regenerated table != model)?  Then the
+            # table is disputed: either the code changed (behaviour will differ from the model on the
+            # table's domain, which the suites of this run explore exhaustively) or the translator
+            # misread a rewritten source.  Second pass: the disputed sections fall back to their
+            # committed text, everything else is rebuilt, and the suites decide.
+            secs = disputed_sections(failed_out)
+            if secs:
+                first_err = aproblems[0]
+                env2 = dict(ENV, VERIF_DISPUTED=",".join(sorted(secs)))
+                p2 = subprocess.run([sys.executable, os.path.join(HERE, "translate.py")], stdout=subprocess.PIPE,
+                                    stderr=subprocess.STDOUT, text=True, env=env2)
+                translator = translator_problems(cfg, p2.stdout)
+                translator = [(sec, (msg + " [" + first_err[:300] + "]") if sec in secs else msg) for sec, msg in translator]
+                theorems, aproblems, failed_out = build_audit(cfg)
+        problems += aproblems
         # the driver (model + spec) must build in any case: it is the other side of the diff
         rc, out = run(["lake", "build", "rodbus_model"], cwd=LEAN)
         if rc != 0:
             first = next((l for l in out.splitlines() if "error" in l), out.strip()[-300:])
             problems.append("driver build failed: " + first.strip())
-        theorems = {}
-        for mod in cfg["audit_modules"]:
-            rc, out = run(["lake", "build", mod], cwd=LEAN)
-            for m in re.finditer(r"'([^']+)' depends on axioms: \[([^\]]*)\]", out):
-                theorems[m.group(1)] = {a.strip() for a in m.group(2).split(",") if a.strip()}
-            for m in re.finditer(r"'([^']+)' does not depend on any axioms", out):
-                theorems[m.group(1)] = set()
-            if rc != 0:
-                errs = [l.strip() for l in out.splitlines() if re.search(r"\berror\b", l)]
-                problems.append(f"lake build {mod} failed: " + (errs[0] if errs else out.strip()[-300:]))
-            # a replayed (cached) build does not re-print infos of dependencies: ask again
-            if rc == 0 and not theorems:
-                src = os.path.join(LEAN, mod.replace(".", "/") + ".lean")
-                rc2, out2 = run(["lake", "env", "lean", src], cwd=LEAN)
-                for m in re.finditer(r"'([^']+)' depends on axioms: \[([^\]]*)\]", out2):
-                    theorems[m.group(1)] = {a.strip() for a in m.group(2).split(",") if a.strip()}
-                for m in re.finditer(r"'([^']+)' does not depend on any axioms", out2):
-                    theorems[m.group(1)] = set()
         if tier == "thorough":
             for mod in cfg["audit_modules"]:
                 pm = mod.replace(".Audit.", ".Props.")
@@ -177,7 +239,7 @@ def proof_obligations(pid, cfg, tier):
     discharged = len([t for t in theorems if t not in bad])
     if problems and discharged == obligations:
         discharged = obligations - 1
-    return dict(obligations=obligations, discharged=discharged, problems=problems,
+    return dict(obligations=obligations, discharged=discharged, problems=problems, translator=translator,
                 theorems={t: sorted(a) for t, a in theorems.items()})
 
 
@@ -199,6 +261,9 @@ def cargo_build(which):
 def build_harness(which):
     with Lock("build.lock"):
         rc, out = cargo_build(which)
+        if rc != 0 and "linking with" in out:
+            # a linker failure is an artefact of an interrupted earlier build, not of the sources
+            rc, out = cargo_build(which)
     if rc != 0:
         errs = [l for l in out.splitlines() if l.startswith("error")]
         return "harness build failed: " + (errs[0] if errs else out.strip()[-300:])
@@ -383,6 +448,23 @@ def main():
     os.makedirs(os.path.join(VERIF, "replays"), exist_ok=True)
 
     ob = proof_obligations(pid, cfg, tier)
+    # A table section that cannot be regenerated from the source (its shape changed) breaks the
+    # translator tie.  The same table is also determined by behaviour: the suites named in
+    # props.TABLE_FALLBACK run the production code over the table's whole domain (exhaustive
+    # sub-domains of the generators) against the model.  If this property runs such a suite, the tie
+    # for that table rests on the correspondence in this run (a note, decided after the suites have
+    # run: any disagreement turns it back into a broken obligation); otherwise it is broken.
+    tie_notes = []
+    own_gens = {x.get("gen") for x in cfg["suites"]}
+    pending_tables = []
+    for sec, msg in ob["translator"]:
+        fb = props.TABLE_FALLBACK.get(sec, set()) & own_gens
+        if fb and not args.replay:
+            pending_tables.append((sec, msg, sorted(fb)))
+        else:
+            ob["problems"].append(f"translator: section {sec}: {msg}")
+    if ob["problems"] and ob["discharged"] == ob["obligations"]:
+        ob["discharged"] = ob["obligations"] - 1
     for p in ob["problems"]:
         log(f"obligation problem: {p}")
     which = cfg.get("harness", "core")
@@ -479,6 +561,15 @@ def main():
         if p == pid and key not in seen_known and not herr and not args.replay:
             log(f"note: known finding {key} did not reproduce in this run")
 
+    for sec, msg, fb in pending_tables:
+        if disagreements or oracle_failures or herr:
+            ob["problems"].append(f"translator: section {sec}: {msg}")
+            log(f"obligation problem: translator: section {sec}: {msg}")
+        else:
+            note = (f"table section '{sec}' could not be regenerated from the source ({msg}); in this run its content is "
+                    f"tied by behaviour: exhaustive sub-domains of {', '.join(fb)} agree with the model")
+            tie_notes.append(note)
+            log("note: " + note)
     violations = 0
     replay_path = None
     verdict_tail = ""
@@ -533,6 +624,7 @@ def main():
             "distribution": dict(dist.most_common(40)),
             "exhaustive_subdomains": exhaustive_note,
             "obligation_problems": ob["problems"],
+            "tie_notes": tie_notes,
         },
         "assumptions": cfg.get("assumptions", []),
         "wall_s": round(wall, 1), "violations": violations,
